@@ -406,6 +406,15 @@ func genEntries(r *rand.Rand, n int) []TREntry {
 			k = bytes.Repeat([]byte{byte('A' + r.IntN(26))}, 40+r.IntN(300))
 		case 3:
 			k = []byte{0, byte(r.IntN(256)), 0, 255}
+		case 4:
+			if chance(r, 0.3) {
+				// long keys around the sizes implementations like to treat specially
+				k = bytes.Repeat([]byte{byte('a' + r.IntN(26))}, pick(r, 4095, 4096, 4097, 5000, 65535, 65536, 70000))
+
+				break
+			}
+
+			fallthrough
 		default:
 			k = []byte(fmt.Sprintf("key-%d", r.IntN(100000)))
 		}
